@@ -674,6 +674,26 @@ pub fn c06_input(c: &mut Ctx, fam: Fam, b: &[u8], class: &str) {
         Err(e) => DecOut::Err(e.clone()),
     };
     c.count(&format!("v{}.block.{}", f, blk.class()));
+    if b.len() >= 3 && b.len() <= 4096 {
+        // "the blocking decoder always equals the async decoder": for every way the transport delivers the bytes
+        let mut sr = Rng::new(fnv_bytes(0xa5c, b));
+        let sched = wl::rand_schedule(&mut sr, b.len(), 2);
+        let mut rd = ScriptedReader::new(b, &sched);
+        rd.keep_log = false;
+        match guard(|| dec_async(fam, &mut rd, b.len() * 2 + sched.len() + 16)) {
+            Ok(Drive::Done(res)) => {
+                if res != asy {
+                    c.violation(
+                        format!("C06:v{}:async-depends-on-delivery:{}", f, mapped.class()),
+                        format!("async decoder under chunked delivery gives {:?}, with everything available at once {:?}", res.as_ref().map(crate::mon::valid::short), asy.as_ref().map(crate::mon::valid::short)),
+                        bcase(fam, b).p("schedule", wl::schedule_text(&sched)),
+                    );
+                }
+            }
+            Ok(Drive::Stuck(e)) => c.violation(format!("C06:v{}:async-chunked:stuck", f), format!("{:?}", e), bcase(fam, b).p("schedule", wl::schedule_text(&sched))),
+            Err(p) => c.violation(format!("C06:v{}:async-chunked:panic:{}", f, panic_sig(&p)), format!("async decoder panicked under chunked delivery: {}", p), bcase(fam, b)),
+        }
+    }
     if blk != mapped {
         c.violation(
             format!("C06:v{}:block-vs-async:{}:{}", f, blk.class(), mapped.class()),
@@ -865,6 +885,30 @@ pub fn accepted_by(c: &mut Ctx, prop: &str, fam: Fam, b: &[u8], on_pkt: &mut dyn
         }
         Ok(_) => {}
         Err(pm) => c.violation(format!("{}:v{}:poll:panic:{}", prop, f, panic_sig(&pm)), format!("poll decoder panicked: {}", pm), bcase(fam, b)),
+    }
+    // "any decoder" includes the async one reading from a transport that delivers the bytes in
+    // pieces: a deterministic (input-derived) chunked schedule with Pendings
+    if b.len() >= 3 {
+        let mut sr = Rng::new(fnv_bytes(0x5c4ed, b));
+        let hdr = match split_frame(b) {
+            Split::Frame { hdr, .. } => hdr,
+            _ => 2,
+        };
+        let sched = wl::rand_schedule(&mut sr, b.len(), hdr);
+        let mut rd = ScriptedReader::new(b, &sched);
+        rd.keep_log = false;
+        match guard(|| dec_async(fam, &mut rd, b.len() * 2 + sched.len() + 16)) {
+            Ok(Drive::Done(Ok(p))) => {
+                let pos = rd.pos;
+                on_pkt(c, "async-chunked", &p, pos)
+            }
+            Ok(_) => {}
+            Err(pm) => c.violation(
+                format!("{}:v{}:async-chunked:panic:{}", prop, f, panic_sig(&pm)),
+                format!("async decoder panicked under chunked delivery: {}", pm),
+                bcase(fam, b).p("schedule", wl::schedule_text(&sched)),
+            ),
+        }
     }
 }
 
